@@ -249,7 +249,7 @@ fn build(raw: &[u16], regime: u8) -> ArithCase {
                     0 => {
                         // both operands around sqrt(2^31): the product of the witness fits, the product of
                         // the upper bounds does not
-                        let mut op = |g: &mut G, vars: &mut Vec<VarDecl>, witness: &mut Vec<i32>| {
+                        let op = |g: &mut G, vars: &mut Vec<VarDecl>, witness: &mut Vec<i32>| {
                             let sign = if g.coin(300) { -1 } else { 1 };
                             let lb = sign * 46340 - 3 + g.below(3) as i32;
                             let size = if regime == 0 { 2 + g.below(3) as i32 } else { 1000 + g.below(100_000) as i32 };
